@@ -208,6 +208,17 @@ impl Stage {
             _ => return Err("unknown stage".into()),
         })
     }
+    /// The same through an `io::Read` source (a file read back in pieces).
+    pub fn restore_from(name: &str, r: &mut dyn std::io::Read) -> Result<Stage, String> {
+        Ok(match name {
+            "requested" => Stage::Requested(bincode::deserialize_from(r).map_err(|e| e.to_string())?),
+            "inactive" => Stage::Inactive(bincode::deserialize_from(r).map_err(|e| e.to_string())?),
+            "ready" => Stage::Ready(bincode::deserialize_from(r).map_err(|e| e.to_string())?),
+            "started" => Stage::Started(bincode::deserialize_from(r).map_err(|e| e.to_string())?),
+            "locked" => Stage::Locked(bincode::deserialize_from(r).map_err(|e| e.to_string())?),
+            _ => return Err("unknown stage".into()),
+        })
+    }
     pub fn balances(&self) -> Option<(u64, u64)> {
         match self {
             Stage::Requested(s) => Some((s.customer_balance().into_inner(), s.merchant_balance().into_inner())),
@@ -530,6 +541,31 @@ impl<'a> World<'a> {
                     &format!("customer::{}", name),
                     format!("channel {} step {}: the stage's own image does not decode: {}", ci, step_no, e),
                 );
+            }
+        }
+        // the storage medium may be a stream: the image read back through `io::Read` in short
+        // pieces with interrupted calls in between must give the same stage
+        if crash {
+            use crate::props::c16::{FaultyRead, ReadOp};
+            let mut sch = crate::rng::Sched::new(self.plan.seed, &format!("world/disk/c{}/s{}", ci, step_no));
+            let mut script = Vec::new();
+            for _ in 0..sch.usize(24) {
+                script.push(if sch.chance(1, 4) { ReadOp::Interrupted } else { ReadOp::Short(1 + sch.usize(40) as u32) });
+            }
+            let mut fr = FaultyRead::new(&image, script);
+            self.o.bump("fault.disk.stream-restore-short-reads");
+            match Stage::restore_from(name, &mut fr) {
+                Ok(st2) => {
+                    if st2.image() != image {
+                        self.o.violate("restored-image-differs", &format!("customer::{}(stream)", name), format!("channel {} step {}: the stage read back from a stream re-encodes differently", ci, step_no));
+                    }
+                }
+                Err(e) => {
+                    // only a finding if the slice decode of the same bytes worked
+                    if Stage::restore(name, &image).is_ok() {
+                        self.o.violate("stored-stage-rejected", &format!("customer::{}(stream)", name), format!("channel {} step {}: the image decodes from a slice but not from a stream: {}", ci, step_no, e));
+                    }
+                }
             }
         }
         // a truncated image never decodes
